@@ -407,6 +407,9 @@ def make_similarity(spec, rng):
 def run_spec(args):
     """worker: (case id, spec) -> (case id, events)"""
     case, spec = args
+    # every case starts from forsys' canonical numpy error state (importing lmfit inside an 'lsq' solve leaves
+    # it at 'ignore' until the next solve; cases must not depend on which case ran before them in the worker)
+    np.seterr(all="raise")
     rng = random.Random(spec.get("seed", 0))
     t = make_tissue(spec, rng)
     sim = make_similarity(spec, rng)
